@@ -13,10 +13,12 @@ prop("C17", "exploration",
      "SetDeadline/Cancel/Close racing; distinct by case hash. Transport half: programs of 2-6 goroutines x 1-5 operations over a "
      "real Client (Handshake, Read, ReadMsg, Write, WriteMsg, SetDeadline, SetReadDeadline, Close), the accepted Handle (same minus "
      "Handshake) and the Server (AcceptTimeout, Close) on vlib/simnet against an honest, a silent or a vanishing peer, both handshake "
-     "modes, HSTimeout / HSDeadline set or not, with a yield schedule at the verif-tagged points in Client.Close/Handshake, "
+     "modes, HSTimeout / HSDeadline set or not, fault 'Close of the underlying socket reports an error' on the server's and/or the "
+     "client's socket (vlib/simnet FailClose: the socket is closed all the same) in half of the cases, with a yield schedule at the verif-tagged points in Client.Close/Handshake, "
      "Server.Close/Serve, Handle.send and DeadlineChan.Recv. Oracle: with a handshake timeout or deadline a handshake against a peer "
-     "that does not answer has returned after 15 virtual s; three concurrent Close calls per object return within 30 s with equal "
-     "results; 30 s after client, handle and server were closed no call is blocked; read errors are end-of-stream or timeout errors; "
+     "that does not answer has returned after 15 virtual s; three concurrent Close calls per object return within 30 s, and ALL Close "
+     "calls of one endpoint within the case (those of the program, concurrent with anything, and the three final ones, i.e. also repeated "
+     "later calls) report the same result, whether the socket's close succeeded or failed (Client, Handle, Server); 30 s after client, handle and server were closed no call is blocked; read errors are end-of-stream or timeout errors; "
      "no goroutine is left; one case in ten is the drain scenario (k messages delivered into the receive queue, then Close: ReadMsg "
      "returns all k, then end-of-stream); also under the race detector.",
      ["between two instrumented points the Go scheduler decides the interleaving", "bounds are virtual (synctest)"],
